@@ -181,6 +181,45 @@ func contentGen(max int) *rapid.Generator[[]byte] {
 
 // ------------------------------------------------------------------ enveloped data
 
+// children returns the TLVs directly inside the constructed DER value t of b.
+func children(b []byte, t rder.TLV) (out []rder.TLV) {
+	for off, end := t.Start+t.HdrLen, t.Start+t.HdrLen+t.Len; off < end; {
+		c, err := rder.ReadStrict(b, off)
+		if err != nil {
+			return out
+		}
+		out = append(out, c)
+		off += c.HdrLen + c.Len
+	}
+	return out
+}
+
+func envelopeKeys(env []byte) (keys []rder.TLV) {
+	ci, err := rder.ReadStrict(env, 0)
+	if err != nil {
+		return nil
+	}
+	top := children(env, ci)
+	if len(top) != 2 {
+		return nil
+	}
+	wrapped := children(env, top[1])
+	if len(wrapped) != 1 {
+		return nil
+	}
+	ed := children(env, wrapped[0])
+	if len(ed) < 3 || ed[1].Tag != 0x31 {
+		return nil
+	}
+	for _, ri := range children(env, ed[1]) {
+		f := children(env, ri)
+		if len(f) > 0 && f[len(f)-1].Tag == 0x04 {
+			keys = append(keys, f[len(f)-1])
+		}
+	}
+	return keys
+}
+
 func TestC17_Enveloped(t *testing.T) {
 	initKeys(t)
 	defer func() { gx.ContentEncryptionAlgorithm = gx.EncryptionAlgorithmDESCBC }()
@@ -372,14 +411,9 @@ func TestC17_Enveloped(t *testing.T) {
 		// the hash C3 inside a recipient's wrapped content key is part of the SM2 ciphertext's integrity: one bit of it
 		// changed and that recipient must be refused (the others are not affected)
 		if !useRSA {
-			tlvs := rder.Walk(env)
-			var c3 []rder.TLV
-			for _, tl := range tlvs {
-				// encryptedKey: the raw SM2 ciphertext 04 || x || y || (C3 || C2 | C2 || C3) of the 8- or 16-byte content key
-				if tl.Tag == 0x04 && (tl.Len == 97+8 || tl.Len == 97+16) && env[tl.Start+tl.HdrLen] == 0x04 {
-					c3 = append(c3, tl)
-				}
-			}
+			// encryptedKey of every RecipientInfo, found by walking the structure (ContentInfo -> [0] -> EnvelopedData ->
+			// SET OF RecipientInfo -> last field): the raw SM2 ciphertext 04 || x || y || (C3 || C2 | C2 || C3)
+			c3 := envelopeKeys(env)
 			if len(c3) != nrec {
 				t.Fatalf("harness: found %d C3 fields for %d recipients", len(c3), nrec)
 			}
